@@ -939,7 +939,7 @@ Proof. exact split_allocs_ok. Qed.
 Print Assumptions C18_pool_split_bounds.
 
 (* ---- requests near SIZE_MAX (model UT/PoolBig.v: the request is a size_t value, IW_ROUNDUP computed modulo 2^64).  WITH the overflow
-   guard of fixes/cont-pool-alloc-size-wrap.diff every request 0 .. SIZE_MAX either fails and leaves the pool as it was (all requests
+   guard (the code since fix 435f237, fixes/cont-pool-alloc-size-wrap.diff) every request 0 .. SIZE_MAX either fails and leaves the pool as it was (all requests
    above PTRDIFF_MAX), or is the allocation of UT/Pool.v (whose region holds every requested byte: C18_pool_alloc_ok); a pointer with
    no byte reserved is returned only for a request of 0 bytes; iwpool_calloc / iwpool_strndup never write past what was reserved *)
 Theorem C18_pool_alloc_size_guarded : forall (p : pool) (siz : Z), (0 <= siz <= SIZE_MAX)%Z ->
@@ -956,7 +956,7 @@ Theorem C18_pool_calloc_strndup_size_guarded : forall (p : pool) (n : Z), (0 <= 
 Proof. exact p_calloc_strndup_z_guarded. Qed.
 Print Assumptions C18_pool_calloc_strndup_size_guarded.
 
-(* WITHOUT the guard (flag false: the code before that fix; finding cont-pool-alloc-size-wrap): every request in (SIZE_MAX - 7, SIZE_MAX]
+(* WITHOUT the guard (flag false: the code before fix 435f237; finding cont-pool-alloc-size-wrap): every request in (SIZE_MAX - 7, SIZE_MAX]
    returns the current heap pointer with no byte reserved and leaves usiz alone, iwpool_calloc then clears siz bytes there *)
 Theorem C18_pool_alloc_size_wrap : forall (p : pool) (siz : Z), (SIZE_MAX - 7 < siz <= SIZE_MAX)%Z ->
   p_alloc_z false p siz = (p, ZZero (length (p_units p) - 1) (p_usiz p)) /\ snd (p_calloc_z false p siz) = true.
